@@ -356,6 +356,19 @@ def bare_loops(fn_text):
     return n
 
 
+_BITOP_RE = re.compile(r'(?<=[\w)\]])\s*(?:>>|<<|&(?!&)|\|(?!\|)|\^)\s*(?=[\w(!-])')
+_DIVOP_RE = re.compile(r'(?<=[\w)\]])\s*(?:/|%)\s*(?=[\w(])')
+
+
+def bit_div_ops(fn_text):
+    """(number of binary bit-level operators, number of division / remainder operators) of an extracted function.  Z3 under Verus does not
+    relate the two forms unprompted (`x & 0xFFF` vs `x % 0x1000`, `x >> 12` vs `x / 0x1000`): when a function moves operators from one class
+    to the other, a failed obligation there is a tool limit."""
+    t = _strip_comments_strings(fn_text)
+    t = re.sub(r'&&', '  ', t)
+    return [len(_BITOP_RE.findall(t)), len(_DIVOP_RE.findall(t))]
+
+
 def opaque_closures(fn_text, unit_text):
     """Closures of an extracted function that carry no contract AND are handed to something whose contract may speak about what they return:
     every callee that is not a shim defined in the unit, and every shim of the unit whose contract mentions the closure's requires()/ensures().
@@ -715,6 +728,7 @@ def build(template_path, variant=None):
         if ex.get('kind') == 'fn':
             shim_text = full.replace(ft, '')
             ex['opaque_closures'] = opaque_closures(ft, shim_text) + bare_loops(ft)
+            ex['bit_div_ops'] = bit_div_ops(ft)
     return full, report
 
 
